@@ -53,6 +53,11 @@ def run(chk):
         mode = rng.choice(["null", "flag0", "dir", "dir", "dir-noflag", "dir-prefix", "dir-prefix"])
         od = os.path.join(base, "o%d" % wi) + "/"
         os.makedirs(od)
+        if wi % 5 == 4:
+            # an output path of more than 256 characters (valid: PATH_MAX is 4096) reaches the world in full
+            mode = "dir-long"
+            od = os.path.join(base, "o%d" % wi, *["d" * 70 + str(k) for k in range(5)]) + "/"
+            os.makedirs(od, exist_ok=True)
         if wi % 5 == 2:
             # character arguments reach the world verbatim, trailing blanks included: the world file is called "<name>.wb " (a
             # neighbour "<name>.wb" holds another world), the output path ends in a blank ("%20" in the line protocol)
@@ -74,6 +79,8 @@ def run(chk):
             hd, dr = "1", od + "pre"
         elif mode == "dir-blank":
             hd, dr = "1", od + "run%20"
+        elif mode == "dir-long":
+            hd, dr = "1", od
         else:
             hd, dr = "0", od
         i0 = cs.raw("nworld %d %s 0 null %d" % (slot, path, seed), "let () = out_str \"skip\"", {"kind": "create", "world": wj})
@@ -155,7 +162,7 @@ def run(chk):
         if not impl[i1].startswith("ok"):
             viol.append(("create_world fails: " + impl[i1], cs.describe(i1)))
             continue
-        if mode == "dir":
+        if mode in ("dir", "dir-long"):
             chk.nontriv(("dir", od))
             if present != sorted(DECL):
                 d = cs.describe(i1)
